@@ -1462,6 +1462,37 @@ theorem connect_sinv {s : Side} (h : SInv s) (name : String) (k : PKind) : SInv 
       rw [hs'']
       simpa [sendRec, emit] using this
 
+theorem gotRecordNoAck_sinv {s : Side} (h : SInv s) (seq : Nat) (handle : Side → Res)
+    (hh : ∀ s1, SInv s1 → SInv (handle s1).1) : SInv (gotRecordNoAck seq handle s).1 := by
+  have key : ∀ (b : Bool) (h' : Option Nat),
+      SInv (if b = true then (s, none) else handle { s with highestAcked := h' }).1 := by
+    intro b h'
+    cases b with
+    | true => exact h
+    | false =>
+      simp only [Bool.false_eq_true, if_false]
+      exact hh _ (sinv_quiet h rfl rfl rfl rfl rfl rfl [] (by simp) (fun _ => rfl))
+  unfold gotRecordNoAck
+  exact key _ _
+
+theorem Rx.handler_sinv (r : Rx) {s : Side} (h : SInv s) : SInv (r.handler s).1 := by
+  cases r with
+  | opn q scid name => exact handleOpen_sinv h scid name
+  | data q scid d => exact handleData_sinv h scid d
+  | close q scid => exact handleClose_sinv h scid
+
+theorem selectRun_sinv : ∀ (rs : List Rx) (s : Side), SInv s → SInv (selectRun rs s).1
+  | [], _, h => h
+  | r :: rs, s, h => by
+    have h1 := gotRecordNoAck_sinv h r.seq r.handler (fun _ h' => r.handler_sinv h')
+    unfold selectRun
+    cases hr : gotRecordNoAck r.seq r.handler s with
+    | mk s' e =>
+      rw [hr] at h1
+      cases e with
+      | none => exact selectRun_sinv rs s' h1
+      | some err => exact sinv_quiet h1 rfl rfl rfl rfl rfl rfl [] (by simp) (fun _ => rfl)
+
 theorem step_sinv {s : Side} (h : SInv s) (o : Op) : SInv (step s o).1 := by
   cases o with
   | connect name k => exact connect_sinv h name k
@@ -1488,6 +1519,10 @@ theorem step_sinv {s : Side} (h : SInv s) (o : Op) : SInv (step s o).1 := by
   | rxOpen seq scid name => exact gotRecord_sinv h seq _ (fun _ h1 => handleOpen_sinv h1 scid name)
   | rxData seq scid d => exact gotRecord_sinv h seq _ (fun _ h1 => handleData_sinv h1 scid d)
   | rxClose seq scid => exact gotRecord_sinv h seq _ (fun _ h1 => handleClose_sinv h1 scid)
+  | park r => exact sinv_quiet h rfl rfl rfl rfl rfl rfl [] (by simp [step]) (fun _ => rfl)
+  | select =>
+    exact selectRun_sinv s.parked _ (sinv_quiet h rfl rfl rfl rfl rfl rfl [] (by simp) (fun _ => rfl))
+  | lost => exact sinv_quiet h rfl rfl rfl rfl rfl rfl [] (by simp [step]) (fun _ => rfl)
 
 theorem run_sinv : ∀ (ops : List Op) (s : Side), SInv s → SInv (run s ops)
   | [], _, h => h
@@ -1511,7 +1546,8 @@ theorem handleData_connected (s : Side) (scid uid : Nat) (d : Bytes) (c : SC) (p
     (hl : lookup scid s.open_ = some uid) (hc : s.subs[uid]? = some c) (hp : c.proto = some (pb, k))
     (hst : reading c.st = true) :
     ∃ s' : Side, handleData scid d s = (s', none) ∧ s'.log = s.log ++ [.data pb d] ∧ s'.open_ = s.open_ ∧
-      s'.subs[uid]? = some c ∧ (∀ u : Nat, u ≠ uid → s'.subs[u]? = s.subs[u]?) := by
+      s'.subs[uid]? = some c ∧ (∀ u : Nat, u ≠ uid → s'.subs[u]? = s.subs[u]?) ∧ Same s s' ∧
+      s'.nextSeq = s.nextSeq ∧ s'.protoCount = s.protoCount ∧ s'.parked = s.parked := by
   have ht : SubChannel.table c.st .remote_data = some (c.st, [.signal_dataReceived]) := by
     cases hcs : c.st <;> rw [hcs] at hst <;> simp [reading] at hst <;> rfl
   have hc1 : (updSC uid (fun c0 => { c0 with st := c.st }) s).subs[uid]? = some { c with st := c.st } := by
@@ -1525,7 +1561,7 @@ theorem handleData_connected (s : Side) (scid uid : Nat) (d : Bytes) (c : SC) (p
       unfold runOut; rw [hc1]; simp only [hp]
     rw [this]; rfl
   refine ⟨emit (.data pb d) (updSC uid (fun c0 => { c0 with st := c.st }) s),
-    by unfold handleData; rw [hl]; exact hstep, rfl, rfl, hc1, ?_⟩
+    by unfold handleData; rw [hl]; exact hstep, rfl, rfl, hc1, ?_, ⟨rfl, rfl, rfl, rfl, rfl, rfl⟩, rfl, rfl, rfl⟩
   intro u hu; simp [emit, updSC, getElem?_modifyAt, hu]
 
 theorem handleData_queued (s : Side) (scid uid : Nat) (d : Bytes) (c : SC) (l : List Bytes)
@@ -1555,5 +1591,127 @@ def WOp.honest : WOp → Bool
   | .onA (.rxOpen ..) | .onA (.rxData ..) | .onA (.rxClose ..) => false
   | .onB (.rxOpen ..) | .onB (.rxData ..) | .onB (.rxClose ..) => false
   | _ => true
+
+/-! ## records parked between the KCM and `select()`; connection loss -/
+
+theorem gotRecordNoAck_fresh (s : Side) (seq : Nat) (handle : Side → Res)
+    (hseq : ∀ h, s.highestAcked = some h → h < seq) :
+    ∃ hi : Nat, seq ≤ hi ∧ gotRecordNoAck seq handle s = handle { s with highestAcked := some hi } := by
+  cases hh : s.highestAcked with
+  | none => exact ⟨seq, Nat.le_refl _, by simp [gotRecordNoAck, hh]⟩
+  | some h =>
+    have hlt : ¬ seq ≤ h := by have := hseq h hh; omega
+    exact ⟨max h seq, Nat.le_max_right _ _, by simp [gotRecordNoAck, hh, hlt]⟩
+
+theorem gotRecordNoAck_fresh' (s : Side) (seq : Nat) (handle : Side → Res)
+    (hseq : ∀ h, s.highestAcked = some h → h < seq) :
+    gotRecordNoAck seq handle s = handle { s with highestAcked := some seq } := by
+  cases hh : s.highestAcked with
+  | none => simp [gotRecordNoAck, hh]
+  | some h =>
+    have hlt := hseq h hh
+    have h1 : ¬ seq ≤ h := by omega
+    have h2 : max h seq = seq := Nat.max_eq_right (by omega)
+    simp [gotRecordNoAck, hh, h1, h2]
+
+theorem gotRecordNoAck_old (s : Side) (seq h : Nat) (handle : Side → Res)
+    (hw : s.highestAcked = some h) (hold : seq ≤ h) : gotRecordNoAck seq handle s = (s, none) := by
+  simp [gotRecordNoAck, hw, hold]
+
+theorem gotRecord_old (s : Side) (seq h : Nat) (handle : Side → Res)
+    (hw : s.highestAcked = some h) (hold : seq ≤ h) : gotRecord seq handle s = (emit (.ack seq) s, none) := by
+  simp [gotRecord, emit, hw, hold]
+
+/-- a burst consisting only of records that were already processed is dropped whole -/
+theorem selectRun_old (h : Nat) : ∀ (rs : List Rx) (s : Side), s.highestAcked = some h → (∀ r ∈ rs, r.seq ≤ h) →
+    selectRun rs s = (s, none)
+  | [], _, _, _ => rfl
+  | r :: rs, s, hw, hold => by
+    unfold selectRun
+    rw [gotRecordNoAck_old s r.seq h r.handler hw (hold r (by simp))]
+    exact selectRun_old h rs s hw (fun x hx => hold x (by simp [hx]))
+
+theorem run_parks (rs : List Rx) : ∀ (s : Side), run s (rs.map Op.park) = { s with parked := s.parked ++ rs } := by
+  induction rs with
+  | nil => intro s; simp [run]
+  | cons r rs ih =>
+    intro s
+    simp only [List.map_cons, run, step]
+    rw [ih]
+    simp
+
+/-- `handle_open` for a name somebody listens for, on a free id -/
+theorem handleOpen_listener (s : Side) (k : PKind) (scid : Nat) (name : String)
+    (hfac : lookup name s.factories = some k) (hnew : lookup scid s.open_ = none) :
+    ∃ s' : Side, handleOpen scid name s = (s', none) ∧
+      ConnRes (pushOpen scid name s) s' s.subs.length (SC.new scid name) k [] false := by
+  have hc : (pushOpen scid name s).subs[s.subs.length]? = some (SC.new scid name) := by simp [pushOpen]
+  obtain ⟨s', hs', r⟩ := connectSC_spec (pushOpen scid name s) s.subs.length (SC.new scid name) k [] false hc rfl rfl rfl rfl
+    (fun h => by cases h)
+  have hgo : gotOpen s.subs.length name (pushOpen scid name s) = (s', none) := by
+    unfold gotOpen
+    have : (pushOpen scid name s).factories = s.factories := rfl
+    rw [this, hfac]; exact hs'
+  exact ⟨s', handleOpen_of_gotOpen_ok s s' scid name hnew hgo, r⟩
+
+/-- CLOSE for a registered SubChannel whose normal protocol is connected and has not closed
+    locally: CLOSE is answered, the SubChannel is unregistered, the protocol gets connectionLost -/
+theorem handleClose_openFull (s : Side) (scid uid : Nat) (c : SC) (pb : Nat)
+    (hl : lookup scid s.open_ = some uid) (hc : s.subs[uid]? = some c) (hsc : c.scid = scid)
+    (hp : c.proto = some (pb, .full)) (hst : c.st = .open_full) :
+    ∃ s' : Side, handleClose scid s = (s', none) ∧ s'.log = s.log ++ [.txClose s.nextSeq scid, .lost pb] ∧
+      s'.open_ = eraseKey scid s.open_ ∧ s'.pendingOpens = s.pendingOpens ∧ s'.protoCount = s.protoCount := by
+  have ht : SubChannel.table c.st .remote_close =
+      some (.closed, [.send_close, .close_subchannel, .signal_connectionLost]) := by rw [hst]; rfl
+  let s6 := updSC uid (fun c0 => { c0 with st := .closed }) s
+  have hc6 : s6.subs[uid]? = some { c with st := .closed } := by
+    simp [s6, updSC, getElem?_modifyAt, hc]
+  let s7 := sendRec (fun q => Eff.txClose q c.scid) s6
+  have h7 : runOut uid [] .send_close s6 = (s7, none) := by
+    unfold runOut; rw [hc6]
+  have hc7 : s7.subs[uid]? = some { c with st := .closed } := hc6
+  let s8 : Side := { s7 with open_ := eraseKey c.scid s7.open_ }
+  have h8 : runOut uid [] .close_subchannel s7 = (s8, none) := by
+    have hlk7 : lookup c.scid s7.open_ = some uid := by rw [hsc]; exact hl
+    unfold runOut; rw [hc7]
+    simp only [hlk7, if_true]
+    rfl
+  have hc8 : s8.subs[uid]? = some { c with st := .closed } := hc6
+  have h9 : runOut uid [] .signal_connectionLost s8 = (emit (.lost pb) s8, none) := by
+    unfold runOut; rw [hc8]; simp only [hp]
+  have hin : scInput uid .remote_close [] s = (emit (.lost pb) s8, none) := by
+    rw [scInput_eq_row [] hc ht]
+    simp only [runOuts]
+    rw [show updSC uid (fun c0 => { c0 with st := SubChannel.State.closed }) s = s6 from rfl, h7, andThen_none, h8,
+      andThen_none, h9]
+    rfl
+  refine ⟨emit (.lost pb) s8, by unfold handleClose; rw [hl]; exact hin, ?_, ?_, rfl, rfl⟩
+  · simp [emit, s8, s7, s6, sendRec, updSC, hsc]
+  · simp [emit, s8, s7, s6, sendRec, updSC, hsc]
+
+/-- `handle_open` with a listener for a normal protocol: the new SubChannel ends up connected, in `open_full` -/
+theorem handleOpen_listener_full (s : Side) (scid : Nat) (name : String)
+    (hfac : lookup name s.factories = some .full) (hnew : lookup scid s.open_ = none) :
+    ∃ (s' : Side) (c' : SC), handleOpen scid name s = (s', none) ∧
+      s'.log = s.log ++ [.build s.protoCount name, .made s.protoCount] ∧
+      s'.subs[s.subs.length]? = some c' ∧ c'.st = .open_full ∧ c'.proto = some (s.protoCount, .full) ∧ c'.scid = scid ∧
+      lookup scid s'.open_ = some s.subs.length ∧ s'.open_ = s.open_ ++ [(scid, s.subs.length)] ∧
+      s'.protoCount = s.protoCount + 1 ∧ s'.nextSeq = s.nextSeq ∧ s'.highestAcked = s.highestAcked ∧
+      s'.pendingOpens = s.pendingOpens := by
+  have hc : (pushOpen scid name s).subs[s.subs.length]? = some (SC.new scid name) := by simp [pushOpen]
+  obtain ⟨s5, c5, heq, h5, hst5, hp5, hscid5, _, hpc5, hlog5, hcount5, hseq5, hopen5, hsame5, _⟩ :=
+    connect_prefix (pushOpen scid name s) s.subs.length (SC.new scid name) .full [] hc rfl rfl rfl
+  have hpcf : c5.pendingClose = false := hpc5
+  rw [hpcf] at heq
+  simp only [Bool.false_eq_true, if_false] at heq
+  have hgo : gotOpen s.subs.length name (pushOpen scid name s) = (s5, none) := by
+    unfold gotOpen
+    have : (pushOpen scid name s).factories = s.factories := rfl
+    rw [this, hfac]; exact heq
+  have hop : s5.open_ = s.open_ ++ [(scid, s.subs.length)] := hopen5
+  refine ⟨s5, c5, handleOpen_of_gotOpen_ok s s5 scid name hnew hgo, ?_, h5, by simpa using hst5, hp5, hscid5, ?_, hop,
+    hcount5, hseq5, hsame5.highestAcked, hsame5.pendingOpens⟩
+  · rw [hlog5]; simp [pushOpen, SC.new]
+  · rw [hop]; exact lookup_append_new' _ _ _ hnew
 
 end WV.C13
